@@ -779,7 +779,7 @@ _TOTAL_FUNCS = {'len', 'str', 'repr', 'type', 'bool', 'id', 'isinstance', 'issub
                 'list', 'tuple', 'any', 'all', 'enumerate', 'iter', 'itertools.chain', 'itertools.chain.from_iterable', 'format',
                 'logging.getLogger', 'dict.fromkeys', 'collections.OrderedDict.fromkeys', 'more_itertools.unique_everseen'}
 _TOTAL_METHODS = {'difference', 'union', 'intersection', 'symmetric_difference', 'keys', 'values', 'items', 'copy', 'issubset',
-                  'issuperset', 'isdisjoint', 'as_tuple'}
+                  'issuperset', 'isdisjoint', 'as_tuple', '__contains__', 'isEnabledFor', 'getEffectiveLevel'}
 
 
 def _total(t):
@@ -811,12 +811,19 @@ def _total(t):
         return _total(t[1])
     if k == 'zip':
         return all(_total(x) for x in t[1])
+    if k in ('ge0', 'eq0', 'ne0'):
+        return _total(t[1])
+    if k == 'poly':
+        # integer arithmetic over lengths and constants
+        return all(f_[0] == 'const' or (f_[0] == 'call' and f_[1] == G('len') and _total(f_)) for _, mono in t[1] for f_ in mono)
     if k == 'call':
         fn, args, kw = t[1], t[2], t[3]
         if fn[0] == 'glob':
             if fn[1] in _TOTAL_FUNCS and not kw:
                 return all(_total(a) for a in args)
             if fn[1] == 'getattr' and len(args) == 3:
+                return all(_total(a) for a in args)
+            if fn[1].split('.')[-1] in ('isEnabledFor', 'getEffectiveLevel'):
                 return all(_total(a) for a in args)
             if fn[1] == 'sorted' and len(args) == 1 and len(kw) == 1 and kw[0][0] == 'key' and kw[0][1] in (G('str'), G('repr')):
                 return _total(args[0])
@@ -879,6 +886,20 @@ class FuncLower:
                 local.add(n.name)
         self.locals = local
         self.nloops = 0
+        # guards of diagnostics: `if len(x) > 1: log(x[0])` - the subscript is safe under the test
+        def mark(stmts, guards):
+            for b in stmts:
+                if isinstance(b, ast.If):
+                    mark(b.body, guards + [b.test])
+                    mark(b.orelse, guards)
+                elif isinstance(b, ast.Expr) and isinstance(b.value, ast.Call):
+                    b.value._guards = list(guards)
+                elif isinstance(b, (ast.For, ast.While, ast.With, ast.Try)):
+                    for fld in ('body', 'orelse', 'finalbody'):
+                        mark(getattr(b, fld, []) or [], guards)
+                    for h in getattr(b, 'handlers', []) or []:
+                        mark(h.body, guards)
+        mark(fi.node.body, [])
         # optional positional renaming of parameters (used to align a reference with the code)
         self.param_names = param_names
 
@@ -1247,7 +1268,7 @@ class FuncLower:
                 for nm in list(lw2.env):
                     if (nm in self.locals or nm in self.params) and lw2.env[nm][0] != 'lam':
                         lw2.env[nm] = V(nm)         # a name that is already bound: reading it evaluates nothing
-                args, kw = lw2._args(v)
+                args, kw = lw2._args(_safe_subscripts(v))
                 parts = [norm(a) for a in args] + [norm(x) for _, x in kw]
             except Exception:
                 parts = None
@@ -1528,6 +1549,37 @@ def _observational(callnode):
         (head in ("logger", "log", "_logger", "_log", "LOGGER") and d.split(".")[-1] in ("debug", "info", "warning", "error", "exception", "critical", "log"))
 
 
+def _safe_subscripts(callnode):
+    """the call with every subscript `X[i]` that one of its guards (`if len(X) > k:` / `>= k` / `if X:`) shows to be in range
+    replaced by a plain name (so that it counts as evaluating nothing that can fail)"""
+    guards = getattr(callnode, '_guards', None)
+    if not guards:
+        return callnode
+    bound = {}
+    for g in guards:
+        tests = g.values if isinstance(g, ast.BoolOp) and isinstance(g.op, ast.And) else [g]
+        for t in tests:
+            if isinstance(t, ast.Compare) and len(t.ops) == 1 and isinstance(t.left, ast.Call) and dotted(t.left.func) == 'len' \
+                    and len(t.left.args) == 1 and isinstance(t.comparators[0], ast.Constant) and isinstance(t.comparators[0].value, int):
+                k_ = t.comparators[0].value
+                n_ = k_ + 1 if isinstance(t.ops[0], ast.Gt) else (k_ if isinstance(t.ops[0], (ast.GtE, ast.Eq)) else 0)
+                key = ast.dump(t.left.args[0])
+                bound[key] = max(bound.get(key, 0), n_)
+            elif isinstance(t, (ast.Name, ast.Attribute)):
+                bound[ast.dump(t)] = max(bound.get(ast.dump(t), 0), 1)
+
+    class R(ast.NodeTransformer):
+        def visit_Subscript(self, n):
+            self.generic_visit(n)
+            if isinstance(n.slice, ast.Constant) and isinstance(n.slice.value, int) and isinstance(n.ctx, ast.Load):
+                b_ = bound.get(ast.dump(n.value), 0)
+                if 0 <= n.slice.value < b_ or (n.slice.value < 0 and -n.slice.value <= b_):
+                    return ast.copy_location(ast.Name(id='__in_range__', ctx=ast.Load()), n)
+            return n
+    import copy
+    return R().visit(copy.deepcopy(callnode))
+
+
 def _trivial_diag(st):
     """a logging / print statement all of whose arguments are constants, names or attribute chains (evaluates nothing that can fail)"""
     if not (isinstance(st, ast.Expr) and isinstance(st.value, ast.Call) and _observational(st.value)):
@@ -1727,6 +1779,9 @@ def norm(t):
         c = t[1]
         if c[0] == 'const':
             return t[2] if c[1] else t[3]
+        if c[0] in ('list', 'tuple', 'set', 'dict') and (not c[1] or all(_total(x) for x in c[1])) and \
+                not any(is_node(x) and x[0] in ('star', 'dstar') for x in c[1]):
+            return t[2] if c[1] else t[3]           # a display is true iff it has an element
         if t[2] == t[3] or (t[2][0] == t[3][0] and len(t[2]) == len(t[3]) and aeq(t[2], t[3])):
             # both branches the same: the test decides nothing, but evaluating it still happens (it may raise) unless it is
             # total or what it evaluates is evaluated by the branch anyway
@@ -1913,12 +1968,18 @@ def norm(t):
         if len(items) != len(t[1][1]):
             return ('dict', items)
         return t
+    if k in ('ret', 'raise') and len(t) == 3 and any(is_node(e) and e[0] == 'expr' and e[1][0] in ('const', 'ge0', 'eq0', 'ne0', 'cmp') and _total(e[1]) for e in t[2]):
+        # an expression statement that has become a constant / a total test does nothing
+        return norm((k, t[1], tuple(e for e in t[2] if not (is_node(e) and e[0] == 'expr' and e[1][0] in ('const', 'ge0', 'eq0', 'ne0', 'cmp') and _total(e[1])))))
     if k == 'ret':
         v = t[1]
         if v[0] == 'if':
             # `return a if c else b`  ==  `if c: return a` / `return b`
             return norm(('if', v[1], ('ret', v[2], t[2]), ('ret', v[3], t[2])))
         return t
+    if k == 'upd' and t[2] in ('.update', '.extend') and t[3][0] == 'call' and t[3][1] == G('args') and len(t[3][2]) == 1 \
+            and not t[3][3] and t[3][2][0] in (('dict', ()), ('list', ()), ('tuple', ())):
+        return t[1]                    # d.update({}) / xs.extend([]) change nothing
     if k == 'try':
         hs = []
         for h in t[2]:
@@ -1982,6 +2043,9 @@ def norm_call(fn, args, kw):
         g = fn[1]
         if g == 'maz.compose' and not kw:
             return compose(args)
+        if g == 'pickle.dumps' and args and (len(args) == 2 or any(k_ == 'protocol' for k_, _ in kw)):
+            # which pickle protocol is written is not observable through pickle.loads (it reads every protocol)
+            return call(fn, args[:1], [(k_, v_) for k_, v_ in kw if k_ != 'protocol'])
         if g == '__nonempty__' and len(args) == 1 and not kw:
             # only whether the sequence is empty is observed: wrappers that keep emptiness are dropped
             a = args[0]
@@ -2147,6 +2211,24 @@ def norm_call(fn, args, kw):
                 src = src[2]
             if m[1][2] == ('sub', V(p0), C(0)) and src[0] == 'call' and src[1] == G('enumerate') and len(src[2]) == 1:
                 return call(G('numpy.array'), [m])
+        if g == 'numpy.flatnonzero' and len(args) == 1 and not kw:
+            # positions where a boolean mask built element by element is set:
+            #   flatnonzero(fromiter(map(f, X), dtype=bool))  ==  array([i for i, x in enumerate(X) if f(x)])     (~mask: if not f(x))
+            m, neg = args[0], False
+            if m[0] == 'if' and m[2][0] != 'if' and m[3][0] != 'if':
+                return norm(('if', m[1], call(fn, [m[2]]), call(fn, [m[3]])))
+            if m[0] == 'inv':
+                m, neg = m[1], True
+            if m[0] == 'call' and m[1] in (G('numpy.fromiter'), G('numpy.array')) and len(m[2]) == 1 and m[2][0][0] == 'map' \
+                    and m[2][0][1][0] == 'lam' and len(m[2][0][1][1]) == 1 and dict(m[3]).get('dtype', G('bool')) == G('bool') \
+                    and m[2][0][1][2][0] in ('cmp', 'not', 'and', 'or', 'ge0'):
+                f, xs = m[2][0][1], m[2][0][2]
+                p_ = fresh('pos')
+                test = apply(f, [('sub', V(p_), C(1))])
+                if neg:
+                    test = ('not', test)
+                return norm(call(G('numpy.array'), [('map', lam([p_], ('sub', V(p_), C(0))),
+                                                      ('filter', lam([p_], test), call(G('enumerate'), [xs])))]))
         if g in ('numpy.dot',) and len(args) == 2 and not kw:
             return call(G('numpy.matmul'), args)
         if g == 'numpy.array' and len(args) == 1 and not kw and args[0][0] == 'call' and args[0][1] == G('numpy.array') \
@@ -2182,6 +2264,15 @@ def norm_call(fn, args, kw):
         # X.ravel().tolist() is X.flatten().tolist() (the view / copy difference does not survive tolist())
         if m == 'tolist' and not args and not kw and o[0] == 'call' and o[1][0] == 'attr' and o[1][2] == 'ravel' and not o[2] and not o[3]:
             return call(('attr', call(('attr', o[1][1], 'flatten')), 'tolist'))
+        # an array of positions taken from enumerate(...) is an int64 array already (differs for the empty one's dtype only)
+        if m == 'astype' and len(args) == 1 and not kw and args[0] in (G('numpy.int64'), G('int')) and o[0] == 'call' \
+                and o[1] == G('numpy.array') and len(o[2]) == 1 and not o[3] and o[2][0][0] == 'map' and o[2][0][1][0] == 'lam' \
+                and len(o[2][0][1][1]) == 1 and o[2][0][1][2] == ('sub', V(o[2][0][1][1][0]), C(0)):
+            src = o[2][0][2]
+            while src[0] == 'filter':
+                src = src[2]
+            if src[0] == 'call' and src[1] == G('enumerate') and len(src[2]) == 1:
+                return o
         # np.array(list of k-tuples).sum(axis=0)  ->  k-tuple of sums
         if m == 'sum' and not args and kw == [('axis', C(0))] and o[0] == 'call' and o[1] == G('numpy.array') \
                 and len(o[2]) == 1 and not o[3]:
@@ -2306,6 +2397,9 @@ def canon(t):
         return t
     t = mapt(canon, t)
     k = t[0]
+    if k in ('ret', 'raise') and len(t) == 3 and any(is_node(e) and e[0] == 'expr' and e[1][0] in ('const', 'ge0', 'eq0', 'ne0', 'cmp') and _total(e[1]) for e in t[2]):
+        # an expression statement that has become a constant / a total test does nothing
+        return (k, t[1], tuple(e for e in t[2] if not (is_node(e) and e[0] == 'expr' and e[1][0] in ('const', 'ge0', 'eq0', 'ne0', 'cmp') and _total(e[1]))))
     if k == 'binop' and t[1] in ('Add', 'Sub', 'Mult'):
         p = _poly_of(t)
         return _mk_poly(p)
